@@ -75,7 +75,26 @@ pub fn eval_log(case: &LogCase, stats: &mut Stats) -> Outcome {
     let mut largest_write: u64 = case.left_current.unwrap_or(0).max(archives.iter().copied().max().unwrap_or(0));
     let mut reached = started_full;
     let mut continued_after_reach = false;
+    // every file of the log, held open across the operation: the handle follows the file through the rename of a roll (and
+    // keeps its inode from being reused if it is deleted)
+    let open_all = |dir: &std::path::Path| -> Vec<(String, u64, std::fs::File)> {
+        let mut v = Vec::new();
+        if let Ok(rd) = std::fs::read_dir(dir) {
+            for e in rd.flatten() {
+                let n = e.file_name().to_string_lossy().to_string();
+                if n.starts_with("ProxyAgent.log") {
+                    if let Ok(f) = std::fs::File::open(e.path()) {
+                        if let Ok(md) = f.metadata() {
+                            v.push((n, md.len(), f));
+                        }
+                    }
+                }
+            }
+        }
+        v
+    };
     for (i, op) in case.ops.iter().enumerate() {
+        let before_op = open_all(&dir);
         let wrote: u64 = match op {
             LogOp::Write(n) => {
                 let r = logger.write(proxy_agent_shared::logger::LoggerLevel::Info, "m".repeat(*n));
@@ -107,6 +126,14 @@ pub fn eval_log(case: &LogCase, stats: &mut Stats) -> Outcome {
         if files.len() > case.count as usize {
             return Outcome::fail("logs:more-files-than-configured-count", format!("after op {} {:?}: {} files {:?} with count {} (limit {})", i, op, files.len(), files, case.count, case.size_limit));
         }
+        // a file that had reached its limit is rolled away before anything else is written: it never grows again
+        for (n_before, sz_before, f) in &before_op {
+            let sz_after = f.metadata().map(|m| m.len()).unwrap_or(*sz_before);
+            if *sz_before >= case.size_limit && sz_after > *sz_before {
+                return Outcome::fail("logs:file-at-its-limit-grew-further", format!("op {} {:?}: {} had {} bytes (limit {}) and grew to {} bytes", i, op, n_before, sz_before, case.size_limit, sz_after));
+            }
+        }
+        drop(before_op);
         for (n, sz) in &files {
             if *sz > case.size_limit + largest_write {
                 return Outcome::fail("logs:file-larger-than-limit-plus-one-write", format!("after op {} {:?}: {} has {} bytes; limit {} + largest single write {}", i, op, n, sz, case.size_limit, largest_write));
@@ -407,4 +434,4 @@ pub fn eval_stop(case: &StopCase, stats: &mut Stats) -> Outcome {
     Outcome::Pass
 }
 
-pub const RULE: &str = "three engines on instance APIs. rolling log: RollingLogger::create_new(dir, name, size limit 64..4096, count 1..6) on a directory left by an earlier run with the same settings (0..count files, possibly at the bound, current file possibly over the limit); ops Write(n), WriteMany([n..]), Restart (new instance on the same directory), 1-59 ops; after EVERY op: files of the log <= count and every file <= limit + largest single write so far. rule dumps: AuthorizationRulesForLogging::write_all(dir, max 1..6) on directories holding 0..9 earlier dumps, 1-9 calls with varying max; after every call: exactly one new dump, dumps <= max, survivors are the newest in creation order; in 20% of the histories a dangling symbolic link appears in the folder at some call (listing the folder may then fail): from then on only 'the number of dumps does not grow beyond max(max, what was there)' is asserted. event files: event_logger::start(dir, 1 ms, cap 1..5) over a directory pre-populated with 0..8 event files and, in a quarter of the cases, 1-2 files that are not event files (the .tmp of an interrupted write); ops Burst(n events, 1-39 or 100-899), Consume(k oldest files, as the reader does), Wait(6 flush intervals); after every wait: file count <= max(cap, initial) and a flush that found the directory at the cap created no file. the final flush: each history in a child process (stop() closes a process-wide queue): pre-populated directory, bursts with or without waiting, then 0-7 events queued and stop() at once; after the logger task has ended: file count <= max(cap, initial). non-trivial: history that reaches the bound and continues, or starts at/over it, or stops at the cap with events queued; distinct by hash of the history.";
+pub const RULE: &str = "three engines on instance APIs. rolling log: RollingLogger::create_new(dir, name, size limit 64..4096, count 1..6) on a directory left by an earlier run with the same settings (0..count files, possibly at the bound, current file possibly over the limit); ops Write(n), WriteMany([n..]), Restart (new instance on the same directory), 1-59 ops; after EVERY op: files of the log <= count, every file <= limit + largest single write so far, and no file (followed through an open handle across the rename of a roll) that had reached the limit before the op grew during it. rule dumps: AuthorizationRulesForLogging::write_all(dir, max 1..6) on directories holding 0..9 earlier dumps, 1-9 calls with varying max; after every call: exactly one new dump, dumps <= max, survivors are the newest in creation order; in 20% of the histories a dangling symbolic link appears in the folder at some call (listing the folder may then fail): from then on only 'the number of dumps does not grow beyond max(max, what was there)' is asserted. event files: event_logger::start(dir, 1 ms, cap 1..5) over a directory pre-populated with 0..8 event files and, in a quarter of the cases, 1-2 files that are not event files (the .tmp of an interrupted write); ops Burst(n events, 1-39 or 100-899), Consume(k oldest files, as the reader does), Wait(6 flush intervals); after every wait: file count <= max(cap, initial) and a flush that found the directory at the cap created no file. the final flush: each history in a child process (stop() closes a process-wide queue): pre-populated directory, bursts with or without waiting, then 0-7 events queued and stop() at once; after the logger task has ended: file count <= max(cap, initial). non-trivial: history that reaches the bound and continues, or starts at/over it, or stops at the cap with events queued; distinct by hash of the history.";
